@@ -289,6 +289,8 @@ package netceptor
 //@   site mapupdate Netceptor.connections ADMITALLOWED: [C11] requires bi.allowedPeers == nil || exists i int :: 0 <= i && i < len(bi.allowedPeers) && bi.allowedPeers[i] == key
 //@   site mapupdate Netceptor.connections ADMITCOST: [C11] requires ci.Cost == ((key in bi.nodeCost) ? bi.nodeCost[key] : bi.connectionCost)
 //@   site call removeConnection WHO: [C11] requires arg1 == remoteNodeID
+//@   site call handleRoutingUpdate VALIDATED: [C11] requires established && arg2 == remoteNodeID && arg1.ForwardingNode == remoteNodeID
+//@        && (arg1.NodeID == remoteNodeID ==> (s.nodeID in arg1.Connections) && arg1.Connections[s.nodeID] == connectionCost)
 //@   ensures FORGOTTEN: [C11] !flag("inserted")
 
 // ---- C06: routing updates are applied and relayed at most once, never regress
